@@ -410,6 +410,8 @@ fn solve_generic_multi(
                 );
                 (ByAddress(node), payoff)
             }));
+            // nodes left in work are handled by the search from the root
+            work.clear();
             // search full from there
             recurse_multi(
                 start,
@@ -419,6 +421,8 @@ fn solve_generic_multi(
                 [1.0; 2],
                 &payoffs,
             );
+            // cached payoffs are only valid for this iteration
+            payoffs.clear();
             chance_infosets.iter_mut().for_each(ChanceRecurse::advance);
             for (reg, infos) in regs.iter_mut().zip(player_infosets.iter_mut()) {
                 *reg = infos.iter_mut().map(|info| info.advance(it, params)).sum();
